@@ -131,13 +131,18 @@ type Result struct {
 var created = time.Date(2026, 4, 5, 6, 7, 8, 9, time.UTC)
 
 // Run builds the payload twice, processes one copy and compares.
-func Run(p payload.Payload, c FCfg) (*Result, error) {
+func Run(p payload.Payload, c FCfg) (*Result, error) { return RunOn(nil, p, c) }
+
+// RunOn is Run on an existing filter (whose configuration must be what c describes).
+func RunOn(f *encrypt.Filter, p payload.Payload, c FCfg) (*Result, error) {
 	pc := c.PCfg()
 	r := &Result{In: payload.Build(p, pc), Twin: payload.Build(p, pc), AllNone: pc.AllNone()}
 	if err := payload.SelfCheck(r.Twin); err != nil {
 		return nil, err
 	}
-	f := c.Filter()
+	if f == nil {
+		f = c.Filter()
+	}
 	f.IgnoreTypes = r.Twin.IgnoreTypes
 	r.InEvent = &eventlogger.Event{Type: "t", CreatedAt: created, Formatted: map[string][]byte{"pre": []byte("x")}, Payload: r.In.Value}
 	func() {
